@@ -107,6 +107,9 @@ func runLegacyCase(t *Tracer, m *Meta, r *rand.Rand, c *TrieCase, layout string,
 		if sl, err := ParseSlim(bb); err == nil {
 			if d, err := Decode(sl); err == nil {
 				t.Emit(TableEv(d))
+				if len(c.Keys) <= 700 {
+					t.Emit(ProtoEv(sl)) // the re-marshalled conversion, field by field (Level B)
+				}
 				m.class(shapeClass(d))
 			} else {
 				t.Emit(Ev{"ev": "tableerr", "msg": err.Error()})
